@@ -686,12 +686,15 @@ func ruleWidths(r *Report) {
 			})
 			h.Check(ok && len(ws) == 1 && ws[0] == n, "Put"+k, r.P.Pos(fn.Pos()), fmt.Sprintf("writes %d bits", n), fmt.Sprintf("Buffer.Put%s writes %v bits of its value (expected %d), or not with the caller's operation and offset", k, ws, n))
 		}
-		section := "slice(r.buffer@0,r.i0@0,r.i1@0)"
+		// the current value's bytes start at r.i0; how many of them are moved is decided by the
+		// primitive (Uint16 reads two bytes of whatever slice it is given), so the upper bound of the
+		// slice may be r.i1, r.last (which lies behind it) or absent
+		isSection := func(key string) bool { return strings.HasPrefix(key, "slice(r.buffer@0,r.i0@0") }
 		if k == "Int" || k == "Uint" {
 			// decoded by size: Reader.Uint switches on the payload width
 		} else if fn := r.Anchor("(*commit.Reader)." + k); fn != nil {
 			ws, ok := wireWidthCalls(fn, "(encoding/binary.bigEndian).Uint", func(ev ievent) bool {
-				return len(ev.Args) == 2 && ev.Args[1].key == section
+				return len(ev.Args) == 2 && isSection(ev.Args[1].key)
 			})
 			h.Check(ok && len(ws) == 1 && ws[0] == n, "Reader."+k, r.P.Pos(fn.Pos()), fmt.Sprintf("reads %d bits", n), fmt.Sprintf("Reader.%s decodes %v bits (expected %d) or not from the current value's bytes", k, ws, n))
 		}
@@ -702,7 +705,7 @@ func ruleWidths(r *Report) {
 					atomsOf(ev.Args[2], at)
 				}
 				_, hasV := at["v"]
-				return len(ev.Args) == 3 && ev.Args[1].key == section && hasV
+				return len(ev.Args) == 3 && isSection(ev.Args[1].key) && hasV
 			})
 			retag := wireRetagsAsPut(fn)
 			h.Check(ok && len(ws) == 1 && ws[0] == n && retag, "Swap"+k, r.P.Pos(fn.Pos()), fmt.Sprintf("rewrites %d bits and retags as Put", n), fmt.Sprintf("Reader.Swap%s encodes %v bits (expected %d) or does not retag the operation as Put", k, ws, n))
